@@ -500,7 +500,7 @@ class modict(odict):
             to be returned.
         """
         try:
-            val = self[key][index]
+            val = super(modict, self).__getitem__(key)[index]
             return kind(val) if kind else val
         except Exception:
             pass
